@@ -133,6 +133,37 @@ def build(chk):
         c_assembly(chk, derivatives, basisM, basisN)
     c_solve(chk)
     c_background(chk)
+    c_fd_estimate(chk)
+
+
+def c_fd_estimate(chk):
+    """EOM.getBoltzmannFiniteDifference (the error estimate that compares the two derivative schemes): it works on a DEEP COPY of the solver
+    - the solver that the next pressure evaluation uses keeps its derivative scheme, bases and collision array -, the copy is switched to
+    finite differences with both bases Cardinal (collision array brought to the Cardinal basis too) and its getDeltas() is what is returned."""
+    fn = "equationOfMotion.EOM.getBoltzmannFiniteDifference"
+    for basisN in ("Cardinal", "Chebyshev"):
+        def mk(it, basisN=basisN):
+            ca = SymObj("CollisionArray", "collisionArray", label="collisionArray", attrs={"basis": basisN})
+            bs = SymObj("BoltzmannSolver", "boltzmann", label="solver", attrs={"derivatives": "Spectral", "basisM": "Cardinal", "basisN": basisN, "collisionArray": ca})
+            eom = SymObj("EOM", "equationOfMotion", label="eom", attrs={"boltzmannSolver": bs})
+            return eom, [], {}, {"bs": bs, "ca": ca, "eom": eom}
+        reg = {"CollisionArray.changeBasis": lambda it, so, a, k: it.event(kind="contract-call", name="changeBasis", obj=so, args=list(a)),
+               "BoltzmannSolver.getDeltas": lambda it, so, a, k: (it.event(kind="contract-call", name="getDeltas", obj=so, attrs=dict(so.attrs)), Opaque("deltas"))[1]}
+        rets = sel(chk.summarize("equationOfMotion", "EOM.getBoltzmannFiniteDifference", mk, registry=reg, record=(basisN == "Cardinal")))
+        if not rets:
+            chk.undecided.append("getBoltzmannFiniteDifference: no returning path")
+        for i, p in enumerate(rets):
+            bs, ca = p.state["bs"], p.state["ca"]
+            gd = [e for e in p.events if e.get("name") == "getDeltas"]
+            cb = [e for e in p.events if e.get("name") == "changeBasis"]
+            stores = [e for e in p.events if e.get("kind") == "store" and e.get("obj") in (bs.label, ca.label, "eom")]
+            ok_copy = (len(gd) == 1 and gd[0]["obj"] is not bs and gd[0]["attrs"].get("derivatives") == "Finite Difference"
+                       and gd[0]["attrs"].get("basisM") == "Cardinal" and gd[0]["attrs"].get("basisN") == "Cardinal"
+                       and len(cb) == 1 and cb[0]["obj"] is not ca and cb[0]["obj"] is gd[0]["attrs"].get("collisionArray") and list(cb[0]["args"]) == ["Cardinal"])
+            chk.vc(f"getBoltzmannFiniteDifference.N-{basisN}.estimate-from-a-finite-difference-copy.{i}", p.pc, sym.to_sym(bool(ok_copy)), func=fn)
+            untouched = (not stores and bs.attrs["derivatives"] == "Spectral" and bs.attrs["basisN"] == basisN and bs.attrs["collisionArray"] is ca)
+            chk.vc(f"getBoltzmannFiniteDifference.N-{basisN}.solver-in-use-untouched.{i}", p.pc, sym.to_sym(bool(untouched)), func=fn, kind="frame")
+            chk.vc(f"getBoltzmannFiniteDifference.N-{basisN}.returns-the-copy's-moments.{i}", p.pc, sym.to_sym(isinstance(p.value, Opaque) and p.value.label == "deltas"), func=fn)
 
 
 def c_feq(chk):
